@@ -568,6 +568,8 @@ def run(ctx):
     finish_agg(rep, ep, 'exit propagation cases')
     finish_agg(rep, ea, 'timed exit_after runs')
     rep.exhaustive = total['ndrift'] == 0
+    from . import c08_proto
+    c08_proto.stage(rep, ctx)          # C08 at the level of the protocol specification (OFP.tla)
     return rep.finish()
 
 
